@@ -1,2 +1,144 @@
-/- placeholder: the C05 driver is not built yet -/
-def main : IO Unit := IO.println "C05: driver not built yet"
+/- C05 line-protocol driver: prints `model <TAB> spec` for each case line (see harness/c05.cpp for the line format). -/
+import Tetl.Proto
+import Tetl.C05.Sites
+import Tetl.C05.Model
+import Tetl.C05.Spec
+namespace Tetl.C05.Driver
+open Tetl.Proto Tetl.C05
+
+def keyText (k : Key) : String := s!"?{k.file}:{k.func}:{k.cond}#{k.k}"
+
+/-- `file:line` of a key in the regenerated inventory; a key that is no longer there is printed as `?…` -/
+def siteOf (k : Key) : String :=
+  match Sites.sites.find? (fun s => s.key == k) with
+  | some s => s!"{k.file}:{s.line}"
+  | none => keyText k
+
+def fmtOk (r : Out) (s : St) : String := s!"ok r={fmtList r} e={fmtList s.elems}"
+
+def fmtModel (noPre : Bool) (s0 : St) : Res Out → String
+  | .ok r s => fmtOk r s
+  | .assert k s => s!"assert({siteOf k}) same={if noPre || s == s0 then "1" else "0"}"
+  | .oob _ => "oob"
+
+def fmtSpec : Res Out → String
+  | .ok r s => fmtOk r s
+  | .assert _ _ => "assert"
+  | .oob _ => "unchecked"
+
+def sizeArg (l : Line) (k : String) : Option Nat :=
+  match l.pos? k with
+  | some none => some (U64 - 1)
+  | some (some n) => some n
+  | none => none
+
+def stor (l : Line) : Stor :=
+  match l.str? "T" with
+  | some "zero" => .zero
+  | some "nontriv" => .nontriv
+  | _ => .triv
+
+def nullKeys (fn : String) (d s : Bool) : Option (List (Key × Bool)) :=
+  let two (file f : String) := some [(SC.kNull file f "dest", d), (SC.kNull file f "src", s)]
+  match fn with
+  | "memmove" => two "_cstring/memmove.hpp" "memmove"
+  | "strcpy" => two "_cstring/strcpy.hpp" "strcpy"
+  | "strncpy" => two "_cstring/strncpy.hpp" "strncpy"
+  | "wcscpy" => two "_cwchar/wcscpy.hpp" "wcscpy"
+  | "wcsncpy" => two "_cwchar/wcsncpy.hpp" "wcsncpy"
+  | "strchr0" => some [(SC.kNull "_cstring/strchr.hpp" "strchr" "str" 0, s)]
+  | "strchr1" => some [(SC.kNull "_cstring/strchr.hpp" "strchr" "str" 1, s)]
+  | _ => none
+
+def parseOp (l : Line) : Option Op :=
+  let st := stor l
+  let k := (l.nat? "k").getD 0
+  let v := (l.int? "v").getD 0
+  let p := (l.int? "p").getD 0
+  let xs := (l.list? "xs").getD []
+  let ord := (l.int? "ord").getD 1 != 0
+  let a := (sizeArg l "a").getD 0
+  let b := (sizeArg l "b").getD 0
+  match l.op with
+  | "sv.at" => (sizeArg l "i").map .svAt
+  | "sv.front" => some .svFront
+  | "sv.back" => some (.svBack k)
+  | "sv.push" => some (.svPush st v)
+  | "sv.emplace_back" => some (.svEmplaceBack st v)
+  | "sv.pop" => some (.svPop st)
+  | "sv.insert_n" => (sizeArg l "n").map fun n => .svInsertN st p n v
+  | "sv.insert_cr" => some (.svInsertCr st p v)
+  | "sv.insert_mv" => some (.svInsertMv st p v)
+  | "sv.emplace" => some (.svEmplace st p v)
+  | "sv.insert_rng" => some (.svInsertRng st p xs ord)
+  | "sv.erase" => some (.svErase st p)
+  | "sv.erase_rng" => match l.int? "f", l.int? "l" with | some f, some t => some (.svEraseRng st f t) | _, _ => none
+  | "sv.resize" => (sizeArg l "n").map fun n => .svResize st n
+  | "sv.resize_v" => (sizeArg l "n").map fun n => .svResizeV st n v
+  | "sv.assign_n" => (sizeArg l "n").map fun n => .svAssignN st n v
+  | "sv.assign_rng" => some (.svAssignRng st xs ord)
+  | "sv.ctor_n" => (sizeArg l "n").map fun n => .svCtorN st n
+  | "sv.ctor_nv" => (sizeArg l "n").map fun n => .svCtorNV st n v
+  | "sv.ctor_rng" => some (.svCtorRng st xs ord)
+  | "sv.clear" => some (.svClear st)
+  | "iv.at" => (sizeArg l "i").map fun i => .ivAt k i
+  | "iv.front" => some (.ivFront k)
+  | "iv.back" => some (.ivBack k)
+  | "iv.emplace_back" => some (.ivEmplaceBack v)
+  | "iv.push" => some (.ivPush k v)
+  | "iv.pop" => some .ivPop
+  | "vw.at" => some (.vwAt a) | "vw.front" => some .vwFront | "vw.back" => some .vwBack
+  | "vw.remove_prefix" => some (.vwRemovePrefix a) | "vw.remove_suffix" => some (.vwRemoveSuffix a)
+  | "vw.substr" => some (.vwSubstr a b) | "vw.copy" => some (.vwCopy a b)
+  | "sp.at" => some (.spAt a) | "sp.front" => some .spFront | "sp.back" => some .spBack
+  | "sp.first" => some (.spFirst a) | "sp.last" => some (.spLast a) | "sp.subspan" => some (.spSubspan a b)
+  | "ar.at" => (sizeArg l "i").map fun i => .arAt k i
+  | "str.ctor_ptr" => some (.strCtorPtr xs a)
+  | "str.ctor_fill" => some (.strCtorFill a ((l.int? "v").getD 120))
+  | "str.op_assign" => some (.strOpAssign xs)
+  | "str.assign_fill" => some (.strAssignFill a ((l.int? "v").getD 120))
+  | "str.assign_ptr" => some (.strAssignPtr xs a)
+  | "str.front" => some (.strFront k) | "str.back" => some (.strBack k) | "str.at" => some (.strAt k a)
+  | "str.push" => some (.strPush ((l.int? "v").getD 120)) | "str.pop" => some .strPop
+  | "str.erase_rng" => some (.strEraseRng a b)
+  | "str.replace" => some (.strReplace k a b xs)
+  | "str.replace_sub" => match sizeArg l "c", sizeArg l "d" with | some c, some d => some (.strReplaceSub a b xs c d) | _, _ => none
+  | "opt.deref" => some (.optDeref k) | "exp.deref" => some (.expDeref k) | "exp.error" => some (.expError k)
+  | "var.idx" => (l.nat? "i").map fun i => .varIdx k i
+  | "var.get" => (l.nat? "i").map fun i => .varGet k i
+  | "bb.op" => match l.nat? "w", sizeArg l "pos" with | some w, some q => some (.bb w q ((l.int? "v").getD 1)) | _, _ => none
+  | "bs.op" => match l.nat? "w", sizeArg l "pos" with | some w, some q => some (.bs w q ((l.int? "v").getD 1)) | _, _ => none
+  | "bs.ctor" => match sizeArg l "pos", sizeArg l "n" with | some q, some n => some (.bsCtor q n 5) | _, _ => none
+  | "bit" => match l.nat? "which", l.nat? "w", sizeArg l "pos" with | some wh, some w, some q => some (.bit wh w q) | _, _, _ => none
+  | "div_sat" => (l.int? "y").map .divSat
+  | "day" => (l.nat? "d").map .dayCtor
+  | "month" => (l.nat? "d").map .monthCtor
+  | "stride" => match l.str? "l", sizeArg l "r" with | some lay, some r => some (.stride lay r) | _, _ => none
+  | "null" => match l.str? "fn" with
+    | some fn => (nullKeys fn ((l.int? "d").getD 1 != 0) ((l.int? "s").getD 1 != 0)).map .nullChecks
+    | none => none
+  | "set.ctor" => some (.setCtor xs.length ord)
+  | _ => none
+
+def initSt (l : Line) : St :=
+  let e := (l.list? "e").getD []
+  let fam := (l.op.splitOn ".").headD ""
+  let cap :=
+    if fam == "sv" || fam == "iv" || fam == "str" then (l.nat? "cap").getD 0
+    else if l.op == "set.ctor" then 3
+    else if l.op == "day" || l.op == "month" then 1
+    else e.length
+  { cap := cap, elems := e, alt := (l.nat? "alt").getD 0 }
+
+def step (_ : Unit) (l : Line) : Unit × String :=
+  match parseOp l with
+  | none => ((), "bad-op\tbad-op")
+  | some op =>
+    let s := initSt l
+    let cfg : Cfg := { safe := (l.int? "safe").getD 0 != 0 }
+    let noPre := l.op == "day" || l.op == "month"
+    ((), fmtModel noPre s (run op cfg s) ++ "\t" ++ fmtSpec (Spec.expect op cfg s))
+
+end Tetl.C05.Driver
+
+def main : IO Unit := Tetl.Proto.runDriver () Tetl.C05.Driver.step
